@@ -805,14 +805,14 @@ fn replay(args: &Args) {
     for b in &behaviours {
         out.eval();
         let (viols, counters, complete, nontrivial) = rt.block_on(replay_one(b, saturate));
-        for (k, n) in counters {
-            out.count_by(&k, n);
+        for (k, n) in &counters {
+            out.count_by(k, *n);
         }
         if complete {
             followed_to_end += 1;
-        } else if viols.is_empty() {
-            // stopped although nothing was wrong: the export oracle / the guards of the
-            // specification do not describe what the code did here
+        } else if !counters.contains_key("stopped:panic") {
+            // stopped although nothing went wrong at that step: the export oracle / the guards of
+            // the specification do not describe what the code did here
             drifted += 1;
         }
         if nontrivial {
@@ -834,7 +834,7 @@ fn replay(args: &Args) {
     out.count_by("behaviours-followed-to-the-end", followed_to_end);
     // drift guard: the verdict oracle of the export (MC_Spaces Likely) must describe the code well
     // enough that most behaviours can be followed; otherwise the replay would be vacuous.
-    out.count_by("behaviours-left-early-without-violation", drifted);
+    out.count_by("behaviours-not-followed-to-the-end-without-panic", drifted);
     if behaviours.len() >= 20 && drifted * 3 > behaviours.len() as u64 {
         out.write(args);
         eprintln!("replay is vacuous: {drifted} of {} behaviours could not be followed (verdict oracle / guards drifted)", behaviours.len());
@@ -928,7 +928,7 @@ async fn replay_one(b: &Value, saturate: bool) -> (Vec<(String, String)>, Counte
                     if o.verdict.name() != st["v"].as_str().unwrap_or("ok") {
                         // the code's verdict is an input of the specification; this exported behaviour
                         // assumed the other one: not a violation, follow it no further
-                        count("stopped:verdict-differs-from-export-oracle");
+                        count(&format!("stopped:verdict-differs-from-export-oracle:{kind}:{cls}:{}", o.verdict.name()));
                         return (viols, counters, false, nontrivial);
                     }
                     if st["known"].as_bool().unwrap_or(false) && matches!(o.verdict, Verdict::Ok(_)) {
@@ -965,6 +965,7 @@ async fn replay_one(b: &Value, saturate: bool) -> (Vec<(String, String)>, Counte
                 let panicked = matches!(o.verdict, Verdict::Panic(_));
                 push(&mut viols, o.violations.clone());
                 if panicked {
+                    count("stopped:panic");
                     return (viols, counters, false, true);
                 }
             }
